@@ -305,5 +305,9 @@ Rec == [n |-> n, nApp |-> nApp, EPF |-> EPF, RNF |-> RNF, P |-> P, V |-> V, bare
                   ELSE [main |-> {}, null |-> {}]]
 Emit == PrintT(<<"EMIT", ToJson(Rec)>>)
 \* only accepted configurations in which some parameter is fed by a source (C02 replay)
+\* accepted configurations in which one middleware function provides SEVERAL names (next() may then be called
+\* positionally in the declared order of the provides tuple)
+EmitMulti == (Allowed = {"ok"} /\ P # {} /\ \E v1, v2 \in V : v1 # v2 /\ v1.m = v2.m /\ v1.ph = v2.ph /\ Exists(v1.m, v1.ph))
+                => PrintT(<<"EMIT", ToJson(Rec)>>)
 EmitOk == (Allowed = {"ok"} /\ P # {} /\ (V # {} \/ ~NoSrc)) => PrintT(<<"EMIT", ToJson(Rec)>>)
 =============================================================================
